@@ -12,8 +12,9 @@ for f in glob.glob("/tmp/confirm_*.log"):
             except Exception:
                 pass
 for d in sorted(glob.glob("/tmp/seed/out/C*/[ab]")):
-    prop, x = d.split("/")[-2:]
-    name = f"{prop}-{x}"
+    pdir, x = d.split("/")[-2:]
+    name = f"{pdir}-{x}"
+    prop = re.sub(r"r\d+$", "", pdir)
     c = conf.get(name)
     if not c:
         print("no confirmation yet:", name)
